@@ -1266,6 +1266,136 @@ func c19Spin(us int64) {
 	}
 }
 
+// REGRESSION family (ids 5-7): two or three goroutines Close the SAME accepted conn at the same time (the usual
+// "close from another goroutine to unblock the reader, whose own deferred Close then runs").  One conn must
+// give back ONE reference.  listenerOpen = false: the listener is closed, the sibling conn B must keep working
+// and the session must end only after B.Close.  listenerOpen = true: the session must stay usable and open.
+func c19ConcurrentClose(id int, dir string, closers int, listenerOpen bool) c19Case {
+	t0 := time.Now()
+	c := c19Case{ID: id, Seed: 0, Backlog: 4}
+	x := &c19Run{c: &c, r: newVrand(uint64(id)), oracle: map[string]bool{}, feat: map[string]bool{}, seenSrv: map[*Session]bool{}, dir: dir}
+	path := filepath.Join(dir, fmt.Sprintf("c19_%d_%d.sock", os.Getpid(), id))
+	os.Remove(path)
+	ln, err := ListenWithBacklog(path, 4)
+	if err != nil {
+		c.Skipped = "listen failed: " + err.Error()
+		return c
+	}
+	defer os.Remove(path)
+	x.ln, x.l = ln, ln.(*listener)
+	x.connect()
+	for i := 0; i < 2 && c.Skipped == ""; i++ {
+		x.open(0)
+		x.startAccept()
+		x.collect(2 * time.Second)
+	}
+	if c.Skipped == "" && (len(x.pending) > 0 || len(x.delivered(true)) != 2) {
+		c.Skipped = "setup: two accepted conns needed"
+	}
+	if c.Skipped != "" {
+		ln.Close()
+		for _, ss := range x.sess {
+			ss.client.Close()
+			ss.server.Close()
+		}
+		return c
+	}
+	ss := x.sess[0]
+	a, b := ss.streams[0], ss.streams[1]
+	if !listenerOpen {
+		x.listenerClose(1)
+	}
+	// the concurrent Close of conn A
+	start := make(chan struct{})
+	var wg sync.WaitGroup
+	for i := 0; i < closers; i++ {
+		wg.Add(1)
+		go func() {
+			defer wg.Done()
+			<-start
+			a.conn.Close()
+		}()
+	}
+	close(start)
+	wg.Wait()
+	a.sclosed = true
+	for i := 0; i < closers; i++ {
+		x.obs(c19Obs{K: "close", S: a.s, I: a.k})
+	}
+	x.say("%d goroutines Close conn s0 k0 concurrently (listener open: %v)", closers, listenerOpen)
+	x.feat["concurrent-close-of-one-conn"] = true
+	time.Sleep(100 * time.Millisecond)
+	early := ss.server.IsClosed()
+	if early {
+		x.fail("server session ended while a conn handed out by Accept is still open")
+	} else {
+		// the sibling conn still carries a ping and a pong
+		x.ioUpFixed(b, 9, 64)
+		x.ioDownFixed(b, 5, 64)
+		if listenerOpen {
+			// the session is still usable: one more stream comes through
+			x.open(0)
+			x.startAccept()
+			x.collect(2 * time.Second)
+			if len(x.pending) > 0 {
+				x.fail("Accept did not return a new conn after a concurrent Close of another conn")
+			}
+		}
+	}
+	if !early {
+		for _, st := range ss.streams {
+			x.clientClose(st)
+		}
+		for _, st := range x.delivered(true) {
+			x.serverClose(st, 1)
+		}
+		if listenerOpen {
+			time.Sleep(150 * time.Millisecond)
+			if ss.server.IsClosed() {
+				early = true
+				x.fail("server session ended although the listener is open and still holds its reference")
+			}
+		}
+	}
+	if !x.lclosed && !early {
+		x.listenerClose(1)
+	}
+	if !early {
+		c19Wait(1500*time.Millisecond, func() bool { return ss.server.IsClosed() })
+		if !ss.server.IsClosed() {
+			x.fail("listener closed and every conn closed but the server session is still open")
+		}
+	}
+	x.obs(c19Obs{K: "final", F: []bool{ss.server.IsClosed()}})
+	// (when the count went wrong the listener is deliberately NOT closed: its wg.Done would make the counter
+	// negative and kill the process)
+	ss.client.Close()
+	ss.server.Close()
+	for _, st := range ss.streams {
+		c.Pipes = append(c.Pipes, st.up.ev, st.down.ev)
+	}
+	for k := range x.oracle {
+		c.Oracle = append(c.Oracle, k)
+	}
+	for k := range x.feat {
+		c.Feat = append(c.Feat, k)
+	}
+	c.Ms = time.Since(t0).Milliseconds()
+	return c
+}
+
+// one write of `size` bytes client -> server on st and one read of up to lenp bytes
+func (x *c19Run) ioUpFixed(st *c19Stream, size, lenp int) {
+	x.say("ping s%d k%d %d", st.s, st.k, size)
+	x.pipeWrite(&st.up, st, 0, size, st.cst.Write, func() *Stream { return st.sst }, false)
+	x.pipeRead(&st.up, lenp, st.conn, false)
+}
+func (x *c19Run) ioDownFixed(st *c19Stream, size, lenp int) {
+	x.say("pong s%d k%d %d", st.s, st.k, size)
+	x.pipeWrite(&st.down, st, 1, size, st.conn.Write, func() *Stream { return st.cst }, false)
+	x.pipeRead(&st.down, lenp, st.cst, false)
+}
+
 func TestVerif_C19(t *testing.T) {
 	seed := uint64(venvInt("VERIF_SEED", 1))
 	n := venvInt("VERIF_N", 40)
@@ -1285,7 +1415,10 @@ func TestVerif_C19(t *testing.T) {
 	emit(c19Race(2, dir))
 	emit(c19Hook(3, dir, false))
 	emit(c19Hook(4, dir, true))
-	var next int64 = 4
+	emit(c19ConcurrentClose(5, dir, 2, false))
+	emit(c19ConcurrentClose(6, dir, 3, false))
+	emit(c19ConcurrentClose(7, dir, 3, true))
+	var next int64 = 7
 	var wg sync.WaitGroup
 	for w := 0; w < par; w++ {
 		wg.Add(1)
@@ -1293,7 +1426,7 @@ func TestVerif_C19(t *testing.T) {
 			defer wg.Done()
 			for {
 				id := int(atomic.AddInt64(&next, 1))
-				if id >= n+5 {
+				if id >= n+8 {
 					return
 				}
 				emit(c19Scenario(id, seed*1000003+uint64(id), dir))
@@ -1303,7 +1436,7 @@ func TestVerif_C19(t *testing.T) {
 	wg.Wait()
 	// stress: streams racing with listener.Close
 	nstress := venvInt("VERIF_STRESS", 3*n/2)
-	var sid int64 = int64(n + 5)
+	var sid int64 = int64(n + 8)
 	var wg2 sync.WaitGroup
 	for w := 0; w < par; w++ {
 		wg2.Add(1)
@@ -1311,7 +1444,7 @@ func TestVerif_C19(t *testing.T) {
 			defer wg2.Done()
 			for {
 				k := int(atomic.AddInt64(&sid, 1)) - 1
-				if k >= n+5+nstress {
+				if k >= n+8+nstress {
 					return
 				}
 				emit(c19Stress(k, seed*7919+uint64(k), dir, true))
@@ -1323,6 +1456,6 @@ func TestVerif_C19(t *testing.T) {
 	// (counter 0, wg.Wait returning) while newStreamWrapper does wg.Add(1) for a stream arriving at that moment
 	nreuse := venvInt("VERIF_REUSE", 3*n/2)
 	for k := 0; k < nreuse; k++ {
-		emit(c19Stress(n+5+nstress+k, seed*104729+uint64(k), dir, false))
+		emit(c19Stress(n+8+nstress+k, seed*104729+uint64(k), dir, false))
 	}
 }
